@@ -7,6 +7,9 @@ NOTES = {  # seed -> (detected_by, note) overriding / complementing the logged r
  'C01-2': ('C01 (no-livelock)', 'first run ended in a harness error (step horizon); the livelock verdict (dump-based spin detection) was added because of this seed'),
  'C03-1': ('NOT DETECTED', 'needs >1000 polling iterations of wall-clock slowness of an upstream stage; durations are not modelled and the controlled scheduler is fair'),
  'C03-2': ('C01 (no-livelock); not by C03', 'same edit as C01-2; the whole-interpreter C03 programs with 8-byte pipes did not reach the required order within 1 deviation of either default schedule'),
+ 'C05-1': ('C05 (stdout / exit)', 'stale exit number used for mid-pipeline commands in runModeTry; caught by the quick tier as built'),
+ 'C05-2': ('C05 (stdout / exit)', 'off-by-one in the chained || skip of runModeTryPipe; caught by the quick tier as built'),
+ 'C26-1': ('C26 (names-unique)', 'CreatePipe releases the registry lock between the existence check and the insert; two-thread drivers, found with 1 preemption'),
  'C26-2': ('C32 (race report Named.Get vs registry writes); not by C26', 'lock-free fast path: no synchronisation operation separates the racing accesses, so the interleaving search of C26 cannot order them; the race-transparent explorer reports it'),
  'C28-1': ('C28 (fid-unique, monitor)', 'the monitor message code had to be fixed first: it called a locking method and recursed'),
  'C28-2': ('C28 (fid-released)', 'missed at first; caught after trypipe/try programs with chained || alternatives were added to the program list'),
@@ -25,6 +28,11 @@ NOTES = {  # seed -> (detected_by, note) overriding / complementing the logged r
  'C24-1': ('C24 (flag-not-dropped)', 'missed at first (value flag followed by a dash-prefixed token was outside the asserted lists); caught after the invariant "a given value flag followed by an undeclared dash-token is reported or rejected, never silently dropped" was added'),
  'C32-1': ('C32 (race report Named.Get vs closePipe/CreatePipe)', 'missed by the first quick tier (the two-session pipe program and the three-operation registry pairs had been trimmed out of it for speed); caught after they were put back'),
  'C32-2': ('C32 (race report paths.(*mxiPath).GetString vs Set)', 'missed at first: no program re-assigned a path-typed global concurrently with its expansion; caught after the typed-global programs were added'),
+ 'C34-1': ('C34 (unsafe-command / file-redirection in a block after a plain-word parameter)', 'missed at first (needs `cmd word {unsafe}`: 8 tokens, beyond the sequence bound); caught after the context `try x <seq>|` was added'),
+ 'C37-2': ('C37 (highlight-preserves-text)', 'missed at first: the alphabet had no TAB; caught after TAB was added to the rune alphabet of C20/C37'),
+ 'C38-1': ('C38 (msort-sorted-permutation)', 'missed at first: every list was smaller than the 4 KiB buffer of the str reader; caught after a 600-element and a 40x200-byte list were added'),
+ 'C38-2': ('C38 (left-map)', 'missed at first: no element was malformed UTF-8; caught after the element \\xffab was added to the str lists (and the model made byte-preserving)'),
+ 'C31-2': ('NOT DETECTED', 'only changes which of several plans of one run are executed and reported after the first failing plan; the check registers and runs one plan per case and observes the overall verdict, which is unchanged'),
  'C19-2': ('NOT DETECTED', 'needs a pipe constructor that fails while returning a typed-nil (pty without /dev/ptmx, or a no_pipe_net build): no such failure can be provoked from the command alphabet'),
 }
 ROOT = '/verif'
@@ -37,7 +45,7 @@ for m in re.finditer(r'SEED (C\d\d)-(\d) check (C\d\d) rc=(\d+) :: (.*?) :: (.*)
     k = f'{m.group(1)}-{m.group(2)}'
     seeds.setdefault(k, {'verify': None, 'checks': []})['checks'].append({'check': m.group(3), 'rc': int(m.group(4)), 'first': m.group(5).strip(), 'summary': m.group(6).strip()})
 # earlier manual confirmations
-MANUAL_OK = {'C21-2'}
+MANUAL_OK = {'C21-2', 'C19-2'}
 for k in ['C01-1','C01-2','C03-1','C03-2','C05-1','C05-2','C26-1','C26-2','C28-1','C28-2']:
     seeds.setdefault(k, {'verify': {"applies":True,"builds":True,"existing_tests_pass":True,"demo_fails_with_change":True,"demo_passes_without_change":True}, 'checks': []})
 rows = []
@@ -56,7 +64,9 @@ for k in sorted(seeds):
         rows.append((k, f'NOT KEPT (confirmation incomplete: {v})')); continue
     caught = [c for c in seeds[k]['checks'] if c['rc'] == 1]
     if k in NOTES: det, note = NOTES[k]
-    elif caught: det, note = f"{caught[-1]['check']} ({re.sub(r'.*clause=(\\S+).*', r'\\1', caught[-1]['first'])})", 'caught by the quick tier as built'
+    elif caught:
+        mm = re.search(r'clause=(\S+)', caught[-1]['first'])
+        det, note = caught[-1]['check'] + ' (' + (mm.group(1) if mm else '?') + ')', 'caught by the quick tier as built'
     else: det, note = 'NOT DETECTED', 'quick tier exit 0 against this change'
     shutil.rmtree(dst, ignore_errors=True); os.makedirs(dst)
     shutil.copy(f'{src}/patch.diff', dst); shutil.copytree(f'{src}/demo', f'{dst}/demo')
